@@ -145,16 +145,20 @@ class C13(Check):
                     await asyncio.sleep(0)
                 if all(t.done() for t in tasks):
                     return tasks[0].result()      # raises
-                k, outs = 0, []
+                k, outs, answers = 0, [], {}
                 while k < len(sent):
                     frame = sent[k]
                     k += 1
                     length, dgs, _ = parse_frame(frame)
                     r = bytearray(frame)
                     for d in dgs[1:]:
-                        if (d["addr"] & 0xffff) != 99:
+                        station = d["addr"] & 0xffff
+                        if station != 99:
                             outs.append(bytes(d["data"]))
-                        r[d["datapos"]:d["datapos"] + d["len"]] = self._resp(case, d["data"])
+                        # every request gets an answer of its own (the common answer shifted by its station number)
+                        mine = bytes((x + station) & 0xff for x in self._resp(case, d["data"]))
+                        answers[station] = mine
+                        r[d["datapos"]:d["datapos"] + d["len"]] = mine
                         struct.pack_into("<H", r, d["datapos"] + d["len"], 1)
                     ec.datagram_received(bytes(r), None)
                     for _ in range(4):
@@ -162,10 +166,15 @@ class C13(Check):
                 rets = [await asyncio.wait_for(t, 60) for t in tasks]
                 if len(outs) != n or any(o_ != outs[0] for o_ in outs):
                     raise AssertionError(f"{n} identical concurrent requests were sent as {len(outs)} datagrams / with different payloads")
-                if any(bits(r_) != bits(rets[0]) for r_ in rets):
-                    bad = [i for i, r_ in enumerate(rets) if bits(r_) != bits(rets[0])]
-                    raise AssertionError(f"{n} identical concurrent requests with identical responses returned different values: request {bad[0]} gave {rets[bad[0]]!r}, request 0 {rets[0]!r}")
-                return outs[0], rets[0], self._resp(case, outs[0])
+                if self.valid(case):
+                    for i, r_ in enumerate(rets):
+                        want = self.want_of(case, answers[7 + i])
+                        got = self.enc_ret(case, pyargs, r_)
+                        if bits(got) != bits(want):
+                            whose = [j for j in range(n) if bits(got) == bits(self.want_of(case, answers[7 + j]))]
+                            raise AssertionError(f"of {n} concurrent requests, request {i} returned {r_!r}"
+                                                 + (f", which is the answer to request {whose[0]}" if whose else f", its own answer decodes to {want!r}"))
+                return outs[0], rets[0], answers[7]
             finally:
                 loop_task.cancel()
                 for t in tasks + ([sibling] if sibling is not None else []):
@@ -200,14 +209,29 @@ class C13(Check):
             return Err(1, str(e))
         except AssertionError as e:
             return Err(2, str(e))
-        if case["data"] is None:
-            enc = [0, list(ret)]
-        elif pyargs:
-            enc = [1, list(ret[:-1]), ret[-1]]
-        else:
-            enc = [2, ret]
+        enc = self.enc_ret(case, pyargs, ret)
         case["_resp"] = resp
         return [out, enc]
+
+    @staticmethod
+    def enc_ret(case, pyargs, ret):
+        if case["data"] is None:
+            return [0, list(ret)]
+        if pyargs:
+            return [1, list(ret[:-1]), ret[-1]]
+        return [2, ret]
+
+    def want_of(self, case, resp):
+        """what roundtrip must return for this response"""
+        a = case["args"]
+        fm = items("".join(v for k, v in a[:-1] if k == "f"))
+        trail = items(a[-1][1]) if a and a[-1][0] == "f" else []
+        fields, n = self.dec_fields(fm + trail, resp)
+        if case["data"] is None:
+            return [0, fields]
+        if a:
+            return [1, fields, resp[n:]]
+        return [2, resp]
 
     @staticmethod
     def has_float(case):
@@ -302,13 +326,7 @@ class C13(Check):
         if out != exp:
             return f"payload {out.hex()} != expected {exp.hex()}"
         resp = case["_resp"]
-        fields, n = self.dec_fields(fm + trail, resp)
-        if d is None:
-            want = [0, fields]
-        elif a:
-            want = [1, fields, resp[n:]]
-        else:
-            want = [2, resp]
+        want = self.want_of(case, resp)
         got = [kind] + rest
 
         def norm(x):
@@ -346,7 +364,7 @@ class C13(Check):
         return ("argument lists of 0-3 (format, values) groups over B H I Q b h i q, 8% floating-point e f d (values incl. -0.0, preceded by the same request with +0.0; oracle only), pad bytes, byte strings and counted items, "
                 "optional trailing read-only format, data = None / count (often 0) / bytes (often empty); 8% malformed "
                 "(out-of-range or wrong count); bus echoes or returns random bytes; 15% of the requests are issued by 2, 15, 16, 17 or 20 tasks at once "
-                "through the real send loop (17 and 20 overflow one frame), together with a request of OTHER formats of the same size. Non-trivial = has arguments and succeeded; "
+                "through the real send loop (17 and 20 overflow one frame), each with an answer of its own, together with a request of OTHER formats of the same size. Non-trivial = has arguments and succeeded; "
                 "distinct by full case content")
 
     def distribution(self, cases, observed):
